@@ -30,8 +30,17 @@ def num_pair(x):
 
 def num_val(x):
     """value part of a number node"""
-    if isinstance(x, (int, np.integer)):
+    if isinstance(x, (bool, int, np.integer)):
         return {"k": "fin", "m": str(int(x)), "e": 0}
+    if isinstance(x, (complex, np.complexfloating)):
+        z = complex(x)
+        if z.imag == 0:
+            x = z.real  # `if not isinstance(obj, numbers.Real) and obj.imag == 0: obj = obj.real`
+        else:
+            if not (math.isfinite(z.real) and math.isfinite(z.imag)):
+                raise Unmodelled("non-finite complex")
+            (rm, re), (im, ie) = num_pair(z.real), num_pair(z.imag)
+            return {"k": "cplx", "rm": str(rm), "re": re, "im": str(im), "ie": ie, "txt": repr(z + 0.0)}
     if isinstance(x, (float, np.floating)):
         f = float(x)
         if math.isnan(f):
@@ -40,17 +49,11 @@ def num_val(x):
             return {"k": "inf", "neg": f < 0}
         m, e = num_pair(f)
         return {"k": "fin", "m": str(m), "e": e}
-    if isinstance(x, (complex, np.complexfloating)):
-        z = complex(x)
-        if not (math.isfinite(z.real) and math.isfinite(z.imag)):
-            raise Unmodelled("non-finite complex")
-        (rm, re), (im, ie) = num_pair(z.real), num_pair(z.imag)
-        return {"k": "cplx", "rm": str(rm), "re": re, "im": str(im), "ie": ie}
     raise Unmodelled(f"number class {type(x).__name__}")
 
 
 def ser_num(x):
-    """a `numbers.Number` other than bool: class name, repr, value"""
+    """a `numbers.Number` (incl. Python's bool): class name, repr, value"""
     return {"t": "num", "cls": type(x).__name__, "repr": repr(x), "v": num_val(x)}
 
 
@@ -163,8 +166,8 @@ def ser(obj):
         return {"t": "nd", "dtype": obj.dtype.str, "shape": [int(n) for n in obj.shape], "h": obj.tobytes().hex()}
     if isinstance(obj, slice):
         return {"t": "slice", "a": ser(obj.start), "b": ser(obj.stop), "c": ser(obj.step)}
-    # 3. numbers other than bool: (class name, repr)
-    if isinstance(obj, (bool, np.bool_)):
+    # 3. numbers (Python's bool is one, numpy's is not): text of the exact value
+    if isinstance(obj, np.bool_):
         return {"t": "bool", "b": bool(obj)}
     if isinstance(obj, numbers.Number):
         return ser_num(obj)
